@@ -1,4 +1,5 @@
 from .data_container import DataContainer, CornerDataContainer
+from .mesh_attributes import ArrayAttribute
 from ..geometry import Vec
 from .. import utils
 from .. import config
@@ -157,14 +158,15 @@ class RawMeshData:
             old_attrs = dict()
             for attr_name in self.edges.attributes:
                 old_attrs[attr_name] = self.edges.get_attribute(attr_name)
-                new_attrs[attr_name] = new_edges.create_attribute(attr_name, old_attrs[attr_name].type, old_attrs[attr_name].elemsize)
+                new_attrs[attr_name] = new_edges.create_attribute(attr_name, old_attrs[attr_name].type, old_attrs[attr_name].elemsize, dense=isinstance(old_attrs[attr_name], ArrayAttribute))
             n = 0
             for ie in self.id_edges:
                 a,b = self.edges[ie]
                 if is_valid(a,b):
                     new_edges.append(utils.keyify(a,b))
                     for name in new_attrs:
-                        if ie in old_attrs[name]: # keep sparsity of the attribute
+                        # a dense attribute holds a value for every edge ('in' would look among its values)
+                        if isinstance(old_attrs[name], ArrayAttribute) or ie in old_attrs[name]: # keep sparsity of the attribute
                             new_attrs[name][n] = old_attrs[name][ie]
                     n+=1
             self.edges = new_edges
